@@ -44,10 +44,13 @@ def confirm(prop, f, timeout_s):
         if not pb["tests"]:
             f.confirmed = False
             payload["note"] = "concrete playback produced no test (counterexample could not be concretised)"
-    elif h is not None and h.native:
+    elif (h is not None and h.native) or getattr(f, "native_kind", None):
         import native
-        ok, info = native.confirm(h.native, prop, f)
-        payload.update({"kind": "native:" + h.native, "native": info})
+        nk = h.native if h is not None else f.native_kind
+        if ("native", nk) not in _PB_CACHE:
+            _PB_CACHE[("native", nk)] = native.confirm(nk, prop, f)
+        ok, info = _PB_CACHE[("native", nk)]
+        payload.update({"kind": "native:" + nk, "native": info, "solver_model": (f.detail or {}).get("smt")})
         f.confirmed = ok
     else:
         payload["kind"] = "none"
